@@ -158,6 +158,8 @@ macro_rules! dispatch_type {
             "SynQ" => $ref_m!($crate::synth::SynQ, $req),
             "SynI" => $ref_m!($crate::synth::SynI, $req),
             "SynT" => $ref_m!($crate::synth::SynT, $req),
+            "SynBig" => $ref_m!($crate::synth::SynBig, $req),
+            "SynX" => $ref_m!($crate::synth::SynX, $req),
             #[cfg(not(feature = "fpdec"))]
             "SynE" => $ref_m!($crate::synth::SynE, $req),
             "SynTwo" => $noref_m!($crate::synth::SynTwo, $req),
@@ -200,6 +202,8 @@ pub fn type_list() -> Vec<(&'static str, &'static str)> {
         ("SynQ", "ref"),
         ("SynI", "ref"),
         ("SynT", "ref"),
+        ("SynBig", "ref"),
+        ("SynX", "ref"),
         ("SynTwo", "noref"),
         ("SynFive", "noref"),
         ("SynOne", "single"),
